@@ -54,9 +54,10 @@ class BVLower:
     """Lowers DAG nodes to SMT-LIB over bit-vectors; abstract values are wide
     bit-vectors (pack = concat, limb = extract), apps are uninterpreted functions."""
 
-    def __init__(self, run, prefix='n'):
+    def __init__(self, run, prefix='n', cuts=()):
         self.run = run
         self.prefix = prefix
+        self.cuts = set(cuts)   # nodes replaced by fresh symbols (sound generalisation: anything proved holds for their real values)
         self.done = set()
         self.lines = []
         self.ufs = {}
@@ -92,6 +93,17 @@ class BVLower:
     def name(self, i):
         return '%s%d' % (self.prefix, i)
 
+    def cone(self, roots):
+        seen, stack = set(), list(roots)
+        while stack:
+            i = stack.pop()
+            if i in seen:
+                continue
+            seen.add(i)
+            if i not in self.cuts:
+                stack.extend(self.run.nodes[i]['a'])
+        return sorted(seen)
+
     def all(self):
         """everything emitted so far, in dependency order"""
         return '\n'.join(self.lines)
@@ -115,17 +127,19 @@ class BVLower:
     def emit(self, roots):
         """returns SMT-LIB text defining all nodes in the cone of roots not emitted before"""
         out = []
-        for i in self.run.cone(roots):
+        for i in self.cone(roots):
             if i in self.done:
                 continue
             self.done.add(i)
             n = self.run.nodes[i]
             srt = self.sort_of(i)
-            if n['op'] == 'var':
+            if n['op'] == 'var' or i in self.cuts:
                 out.append('(declare-const %s %s)' % (self.name(i), srt))
                 continue
             pre, body = self.body(i, n)
             out.extend(pre)
+            if body is None:
+                continue   # helper node that has no meaning in this interpretation; any use is a solver error
             out.append('(define-fun %s () %s %s)' % (self.name(i), srt, body))
         self.lines.extend(out)
         return '\n'.join(out)
